@@ -1,5 +1,6 @@
 (* C05 - entity state = last-writer-wins replay of creation and property packets.  Statements only. *)
-From RU Require Import Base Types Defs BitReader World LwwProofs WorldProofs.
+From RU Require Import Base Types Defs BitReader World WireSpec LwwProofs WorldProofs CreateProofs.
+From Coq Require Import Lia.
 Open Scope N_scope.
 
 (* after ANY history of creation / update events (any number, any ids, re-creation included) the model's entity table,
@@ -41,3 +42,60 @@ Theorem C05_player_id_reported : forall St w pl w',
   exists id r, get_s 4 pl = Ok (id, r) /\ w_player w' = Some id.
 Proof. exact player_id_reported. Qed.
 Print Assumptions C05_player_id_reported.
+
+(* byte level: an entity-creation packet IS the creation event: the entity table afterwards holds the entity the packet names, of the
+   type its type index names, with exactly the (possibly partial) property set of its state block *)
+Theorem C05_create_packet_is_event : forall St w id et pad extra items name m,
+  (- 2 ^ 31 <= id < 2 ^ 31)%Z -> (- 2 ^ 15 <= et < 2 ^ 15)%Z -> length pad = 32%nat ->
+  length extra = (match s_game St with Wot => 4 | _ => 0 end)%nat ->
+  (length items < 256)%nat -> N.of_nat (S (length (flat_map enc_item items))) < 2 ^ 32 ->
+  entity_by_index (s_names St) et = Some name -> assoc_get name (s_models St) = Some m ->
+  Forall (item_ok m) items ->
+  snd (step_class St w EntityCreate (enc_create id et pad extra items)) = None /\
+  w_entities (fst (step_class St w EntityCreate (enc_create id et pad extra items))) =
+  w_entities (conc_step (fun _ => map (fun t => (t, None)) (e_vol m)) w
+                (EvCreate id name (map (fun it => (p_name (snd (fst it)), snd it)) items))).
+Proof. exact create_packet_is_event. Qed.
+Print Assumptions C05_create_packet_is_event.
+
+(* byte level, whole histories: ANY sequence of creation packets (re-creation included), property-update packets and updates
+   addressed to unknown ids, played through the real step function, leaves an entity table whose abstraction is the
+   last-writer-wins fold of the events the packets denote *)
+Theorem C05_packets_refine_spec : forall St w pkts evs, replays St w pkts evs -> forall s,
+  ids_ok w -> same (abs w) s ->
+  ids_ok (play_packets St w pkts) /\ same (abs (play_packets St w pkts)) (fold_left spec_step evs s).
+Proof. exact packets_refine_spec. Qed.
+Print Assumptions C05_packets_refine_spec.
+
+(* non-vacuity: a definition set with one entity type and two properties; create id 7 with one property, update the other, re-create
+   id 7 with a different value, update an id that does not exist: the hypotheses hold and the table is what the spec says *)
+Local Open Scope string_scope.
+Definition ex_props : list prop := [{| p_name := "hp"; p_type := TUInt 2; p_flags := 0 |}; {| p_name := "name"; p_type := TString; p_flags := 0 |}].
+Definition ex_model : emodel := {| e_methods := []; e_client := ex_props; e_internal := ex_props; e_cell := []; e_base := []; e_vol := ["position"] |}.
+Definition ex_St : setup :=
+  {| s_game := Wows; s_table := []; s_names := ["Ship"]; s_models := [("Ship", ex_model)]; s_msubs := []; s_mcounts := []; s_psubs := []; s_nsubs := [] |}.
+Definition ex_hp := {| p_name := "hp"; p_type := TUInt 2; p_flags := 0 |}.
+Definition ex_pad : bytes := repeat x00 32.
+Definition ex_pkts : list (pclass * bytes) :=
+  [(EntityCreate, enc_create 7 1 ex_pad [] [(0, ex_hp, VInt 500)]);
+   (EntityProperty, enc_update 7 0 [x2c; x01]);
+   (EntityProperty, enc_update 9 0 [x2c; x01]);
+   (EntityCreate, enc_create 7 1 ex_pad [] [(0, ex_hp, VInt 2)])].
+Ltac zrange := split; [apply Z.leb_le | apply Z.ltb_lt]; vm_compute; reflexivity.
+Ltac nlt := apply N.ltb_lt; vm_compute; reflexivity.
+Ltac item1 := constructor; [| constructor]; split; [nlt | split; [reflexivity | cbn; lia]].
+Ltac create_side := [> zrange | zrange | reflexivity | reflexivity | apply Nat.ltb_lt; vm_compute; reflexivity | nlt | reflexivity | reflexivity | item1 | ].
+Example C05_example_history :
+  replays ex_St empty_world ex_pkts
+    [EvCreate 7 "Ship" [("hp", VInt 500)]; EvUpdate 7 "hp" (VInt 300); EvCreate 7 "Ship" [("hp", VInt 2)]] /\
+  (match abs (play_packets ex_St empty_world ex_pkts) 7 with Some (ty, f) => ty = "Ship" /\ f "hp" = Some (VInt 2) /\ f "name" = None | None => False end).
+Proof.
+  split.
+  - unfold ex_pkts.
+    apply (rp_create ex_St empty_world 7 1 ex_pad [] [(0%N, ex_hp, VInt 500)] "Ship" ex_model); create_side.
+    eapply (rp_update ex_St _ 7 0 [x2c; x01] _ ex_model ex_hp (VInt 300) []); [> nlt | nlt | nlt | vm_compute; reflexivity | reflexivity | reflexivity | reflexivity | ].
+    apply (rp_update_unknown ex_St _ 9 0 [x2c; x01]); [> nlt | nlt | nlt | vm_compute; reflexivity | ].
+    apply (rp_create ex_St _ 7 1 ex_pad [] [(0%N, ex_hp, VInt 2)] "Ship" ex_model); create_side.
+    apply rp_nil.
+  - vm_compute. repeat split; reflexivity.
+Qed.
